@@ -173,6 +173,13 @@ func (sm *seatManager) JoinPlayers(playerIDs []string) error {
 
 	for _, seatID := range targetPlayerSeatIDs {
 		sm.SeatData[seatID].IsIn = true
+
+		// a player who sits in after positions were set waits for the big blind
+		// like a newly seated one (AssignSeats only evaluates this for seats
+		// taken after InitPositions, and InitPositions does not evaluate it at all)
+		if sm.IsInit {
+			sm.SeatData[seatID].IsBetweenDealerBB = sm.isBetweenDealerBB(sm.DealerSeatID, sm.BBSeatID, seatID)
+		}
 	}
 
 	return nil
